@@ -1082,9 +1082,13 @@ class RouteMon(Monitor):
             eff = giver
             if len(chain) == 2 and isinstance(prev_dev_of_last, GroupOutput) and exit_entry is not None:
                 eff = exit_entry         # a part leaving a group is offered to the devices behind the path it entered by
-            if self.idle_rule and _is_cycle_dev(fdev) and (len(chain) == 1 or eff is not giver):
-                cands = [c for c in self.downstream_of(eff) if c in self.pre_idle]
-                if final in self.pre_idle and len(cands) > 1:
+            via_passthrough = len(chain) >= 2 and eff is giver and \
+                all(self.kinds.get(g[3]) in ('gate', 'flow') for g in chain[:-1])
+            if self.idle_rule and _is_cycle_dev(fdev) and (len(chain) == 1 or eff is not giver or via_passthrough):
+                # candidates: single-slot devices that could take the part now, directly behind the giver or behind
+                # unblocked pass-through devices (a pass-through device ranks by the longest-idle device behind it)
+                cands = self.idle_candidates(w, eff, rec[9])
+                if final in self.pre_idle and len(cands) > 1 and final in cands:
                     best = min(self.pre_idle[c] for c in cands)
                     if self.pre_idle[final] != best:
                         raise Violation('idle_longest', f'{giver} gave part {pid} to {final} (idle since '
@@ -1101,6 +1105,26 @@ class RouteMon(Monitor):
                     and not self.pre_idle.get(d.name, None) is not None and False:
                 pass
         self.check_histories(w)
+
+    def idle_candidates(self, w, giver, quality, depth=0):
+        out = []
+        for c in self.downstream_of(giver):
+            k = self.kinds.get(c)
+            if c in self.pre_idle:
+                out.append(c)
+            elif k in ('gate', 'flow') and depth < 4:
+                d = w.dev.get(c)
+                if d is None or d.block_input:
+                    continue
+                if k == 'gate':
+                    dec = self.spec_of(w, c).get('decider', 'all')
+                    ok = {'q_ge': quality is not None and quality >= 0.5, 'q_lt': quality is not None and quality < 0.5,
+                          'all': True, 'q_ge_none': quality is not None and quality >= 0.5,
+                          'q_lt_none': quality is not None and quality < 0.5}[dec]
+                    if not ok:
+                        continue
+                out.extend(self.idle_candidates(w, c, quality, depth + 1))
+        return out
 
     def spec_of(self, w, name):
         for d in w.spec['devices']:
